@@ -13,7 +13,7 @@ import (
 
 // Fixed regression worlds: one per conforming variation named in the property / defect shape of
 // DESIGN.md section 7. Part of both tiers.
-var fixedNames = []string{"two-offset-accepts", "offset-then-letters", "all-accept-forms", "all-reject-forms", "all-defer-forms", "title-from-long-subject", "latin1-subject", "early-fq", "dup-mid", "dup-mid-second", "dup-mid-second-batched", "dup-mid-third-batched", "six-messages-order", "precedence-in-encoded-subjects", "twenty-mixed-precedence", "sixteen-one-flash", "lib-master-motd", "gzip"}
+var fixedNames = []string{"two-offset-accepts", "offset-then-letters", "all-accept-forms", "all-reject-forms", "all-defer-forms", "title-from-long-subject", "latin1-subject", "early-fq", "dup-mid", "dup-mid-second", "dup-mid-second-batched", "dup-mid-third-batched", "six-messages-order", "precedence-in-encoded-subjects", "peer-traffic-after-its-ff", "peer-traffic-after-its-ff-lib-master", "twenty-mixed-precedence", "sixteen-one-flash", "lib-master-motd", "gzip"}
 
 func fixedWorld(name string) (*b2fx.PeerWorld, error) {
 	w := b2fx.BaseWorld("fixed-"+name, false)
@@ -71,6 +71,23 @@ func fixedWorld(name string) (*b2fx.PeerWorld, error) {
 		add(w.AddPeer("DUPB", "dup b", body(20, 'b'), fbb.Reject))
 		add(w.AddPeer("DUPC", "dup c", body(30, 'c'), fbb.Accept))
 		add(w.AddPeer("DUPD", "dup d", body(40, 'd'), fbb.Defer))
+	case "peer-traffic-after-its-ff", "peer-traffic-after-its-ff-lib-master":
+		// the peer says FF first, receives the station's messages, then has traffic of its own (more than one
+		// block): the station, with nothing left to send, must keep answering FF until the peer is done
+		// (the peer holds only while the station has messages it has not offered yet: the station is master
+		// with two messages, or slave with seven = two blocks)
+		n := 7
+		if name == "peer-traffic-after-its-ff-lib-master" {
+			w = b2fx.BaseWorld("fixed-"+name, true)
+			n = 2
+		}
+		w.Plan.HoldFirst = true
+		for i := 0; i < n; i++ {
+			add(w.AddLib(fmt.Sprintf("HOLDL%d", i), "station traffic", body(20+i, 'a'), "+"))
+		}
+		for i := 0; i < 7; i++ {
+			add(w.AddPeer(fmt.Sprintf("HOLDP%d", i), "late traffic", body(30+i, 'p'), fbb.Accept))
+		}
 	case "precedence-in-encoded-subjects":
 		// precedence markers in subjects that are word-encoded on the wire (non-ASCII characters), next to smaller routine traffic
 		add(w.AddLib("PENC1", "routine small", body(3, 'a'), "+"))
